@@ -1,5 +1,7 @@
 pub mod c01;
 pub mod c02;
+pub mod c12;
+pub mod c13;
 pub mod c16;
 pub mod c17;
 
@@ -9,6 +11,8 @@ pub fn by_id(id: &str) -> Option<Box<dyn Property>> {
     Some(match id {
         "C01" => Box::new(c01::C01),
         "C02" => Box::new(c02::C02),
+        "C12" => Box::new(c12::C12),
+        "C13" => Box::new(c13::C13),
         "C16" => Box::new(c16::C16),
         "C17" => Box::new(c17::C17),
         _ => return None,
